@@ -604,7 +604,7 @@ def branch_edges(body, slicer, b):
         ex = [names.get(v, v) for (v, _) in arms]
         rest = [n for n in names.values() if n not in ex]
         if other in body.reachable and body.blocks[other]["t"]["k"] != "unreachable":
-            labels.setdefault(other, []).append(("else", tuple(rest)))
+            labels.setdefault(other, []).append(("else", tuple(rest), tuple(x for x in ex if isinstance(x, str))))
         out = {}
         for k, v in labels.items():
             out[k] = v[0] if len(v) == 1 else ("anyof", tuple(v))
@@ -633,7 +633,105 @@ def _discr_names(body, discr_op, b):
     return {}
 
 
+def _bool_alternatives(body, slicer, l, blk, idx, depth=0):
+    """Alternatives of a boolean local read at (blk, idx): [(value term, [raw condition triples dominating that definition], def block)].
+    Copies of other locals are followed.  None when the local is not a plain multi-definition boolean."""
+    if depth > 6:
+        return None
+    if 1 <= l <= body.arg_count:
+        return None
+    sites, entry = slicer.reaching(l, blk, idx)
+    if entry or not sites:
+        return None
+    out = []
+    for (db, dj) in sorted(set(sites)):
+        if dj < 0:
+            out.append((slicer.def_term(l, db, dj, 0), _dom_conds_raw(body, slicer, db), db))
+            continue
+        s = body.blocks[db]["s"][dj]
+        if s["k"] != "assign" or s["p"]["pr"]:
+            return None
+        r = s["r"]
+        if r["k"] == "use":
+            q = r["o"].get("m") or r["o"].get("c")
+            if q is not None and not q["pr"] and not (1 <= q["l"] <= body.arg_count) and len(slicer.defs().get(q["l"], [])) > 1:
+                inner = _bool_alternatives(body, slicer, q["l"], db, dj, depth + 1)
+                if inner is not None:
+                    base = _dom_conds_raw(body, slicer, db)
+                    out.extend((v, c + [x for x in base if x not in c], d) for (v, c, d) in inner)
+                    continue
+        out.append((slicer.rvalue(r, db, dj), _dom_conds_raw(body, slicer, db), db))
+    return out
+
+
 def dom_conds(body, slicer, b):
+    """Conditions that hold on *every* path reaching block b (see _dom_conds_raw), with one refinement: when a branch tests a boolean
+    local that was assigned on several paths (`let ok = a && b; if ok`, `let hit = x || y; if !hit`) and exactly one of its
+    alternatives is compatible with the edge taken, the conditions of that alternative and its value are added - so the named
+    boolean and the inline condition give the same list."""
+    raw = _dom_conds_raw(body, slicer, b)
+    out = []
+    for (atom, label, p) in raw:
+        out.append((atom, label, p))
+        if not isinstance(label, bool):
+            continue
+        t = body.blocks[p]["t"]
+        if t["k"] != "switch" or t.get("ty") != "bool":
+            continue
+        d = t["discr"].get("m") or t["discr"].get("c")
+        if d is None or d["pr"]:
+            continue
+        l = d["l"]
+        # look through `_t = Not(_x)` / copies created for the switch
+        neg = False
+        guard = 0
+        while guard < 6:
+            guard += 1
+            ds = slicer.defs().get(l, [])
+            if len(ds) == 1 and ds[0][1] >= 0:
+                st = body.blocks[ds[0][0]]["s"][ds[0][1]]
+                r = st.get("r") or {}
+                if st["k"] == "assign" and not st["p"]["pr"] and r.get("k") == "unop" and r.get("op") == "Not":
+                    q = r["o"].get("m") or r["o"].get("c")
+                    if q is not None and not q["pr"]:
+                        l, neg = q["l"], not neg
+                        continue
+                if st["k"] == "assign" and not st["p"]["pr"] and r.get("k") == "use":
+                    q = r["o"].get("m") or r["o"].get("c")
+                    if q is not None and not q["pr"]:
+                        l = q["l"]
+                        continue
+            break
+        if len(slicer.defs().get(l, [])) < 2:
+            continue
+        alts = _bool_alternatives(body, slicer, l, p, len(body.blocks[p]["s"]))
+        if not alts:
+            continue
+        # branch_edges already folded the negations into `label`: label is the truth value of the un-negated local
+        want = label
+        live = []
+        for (v, conds, db) in alts:
+            vv = v
+            pol = True
+            while vv[0] == "unop" and vv[1] == "Not":
+                vv, pol = vv[2], not pol
+            if vv[0] == "const" and isinstance(vv[1], bool):
+                if (vv[1] == pol) != want:
+                    continue          # this alternative cannot produce the value the edge requires
+                live.append((None, None, conds, db))
+            else:
+                live.append((vv, want == pol, conds, db))
+        if len(live) == 1:
+            vv, vpol, conds, db = live[0]
+            for c in conds:
+                if c not in out:
+                    out.append(c)
+            if vv is not None:
+                out.append((vv, vpol, db))
+    return out
+
+
+def _dom_conds_raw(body, slicer, b):
     """Conditions that hold on *every* path reaching block b (conjunctive): the branch edges (a -> s) with s on the
     dominator chain of b and a the only predecessor of s.  Unlike control dependence this is loop-safe: conditions of
     earlier loop iterations are not included."""
